@@ -2001,7 +2001,7 @@ class IPv6Obj(object):
             else:
                 # NOTE: We cannot use the same algorithm as IPv4Obj.__contains__() b/c IPv6Obj has no broadcast
                 comparison_01 = (self.as_decimal_network <= val.as_decimal_network)
-                comparison_02 = (self.as_decimal_network + self.numhosts - 1) >= (val.as_decimal_network + val.numhosts - 1)
+                comparison_02 = self.as_decimal_network_maxint >= val.as_decimal_network_maxint
                 return comparison_01 and comparison_02
 
         except BaseException as eee:
